@@ -3,7 +3,7 @@
 (* C18: sweeps never pay fees beyond their budget and ramp up to it by the  *)
 (* deadline.                                                                *)
 (*                                                                          *)
-(* Two layers of lnd's sweep package, as the code keeps them:               *)
+(* Three layers of lnd's sweep package, as the code keeps them:             *)
 (*                                                                          *)
 (*  1. sweep.LinearFeeFunction (fee_function.go): the variable `ff' holds   *)
 (*     exactly its fields startingFeeRate, endingFeeRate, currentFeeRate    *)
@@ -23,7 +23,7 @@
 (*     calculateRetryFeeRate), Bump (IncreaseFeeRate at a new block),       *)
 (*     Pub (Wallet.PublishTransaction), Done (the BumpResult).              *)
 (*                                                                          *)
-(*  3. the sweeper above the publisher (sweeper.go: sweepPendingInputs ->     *)
+(*  3. the sweeper above the publisher (sweeper.go: sweepPendingInputs ->   *)
 (*     sweep): the BumpRequest is BUILT by UtxoSweeper.sweep from the       *)
 (*     sweeper's configuration and the input set.  The request record `rq'  *)
 (*     therefore carries, next to what reached the publisher (budget,       *)
